@@ -3,7 +3,7 @@ import ast
 import re
 from ..engine.model import AnalysisError, dotted
 from ..engine.context import unparse, enclosing_stmt, stores_in, names_in
-from ..engine.cfg import walk_no_nested, calls_in, facts_of
+from ..engine.cfg import walk_no_nested, calls_in, facts_of, no_exc
 from .c03 import edge_has_fact
 
 EXPLANATION = (
@@ -293,6 +293,15 @@ def run(ctx, R, tier):
                 rejects.append(n)
     R.check(bool(rejects), "C19-R4", "presence|metadata-tags", "a PYROMETA tag set that would print as the empty string is rejected by the parser", init.loc(ts),
             "after `%s` nothing rejects a blank tag set: \"PYROMETA:,\" is accepted with the tags {\"\"} and prints as \"PYROMETA:\", which the parser refuses" % unparse(ts, 70))
+    # ... and so is one whose only tags are empty strings ('PYROMETA:,' or 'PYROMETA: , '): the empty tag is taken out of the set BEFORE the emptiness test (or never
+    # enters it), otherwise {''} passes the test and prints as 'PYROMETA:' which the parser rejects
+    gens = [g_ for n in ast.walk(ts.value) if isinstance(n, (ast.GeneratorExp, ast.SetComp, ast.ListComp)) for g_ in n.generators]
+    filtered = any(g_.ifs for g_ in gens)
+    drops = [n for n in icfg.nodes if n.kind == "stmt" and any(isinstance(c.func, ast.Attribute) and c.func.attr in ("discard", "difference_update") and unparse(c.func.value) == "self.object"
+                                                                 and c.args and "''" in unparse(c.args[0]).replace('"', "'") for c in calls_in(n))]
+    dropped = filtered or (bool(drops) and bool(rejects) and icfg.all_paths_pass(icfg.nodes_for(ts), lambda n: n in drops, edge_ok=no_exc, targets=rejects))
+    R.check(dropped, "C19-R4", "presence|empty-tags-never-enter-the-set", "empty tag texts are filtered out or discarded before the tag set is tested for emptiness", init.loc(ts),
+            "an empty tag stays in the set: URI('PYROMETA:,') is accepted with the tags {''} and its text form 'PYROMETA:' is refused by the parser (no fixed point)")
 
     # PYROMETA tags: printed with the separator they are split on (the parser's regex allows no blanks inside the object part)
     joins = [c for c in walk_no_nested(st_.node) if isinstance(c, ast.Call) and isinstance(c.func, ast.Attribute) and c.func.attr == "join" and isinstance(c.func.value, ast.Constant)]
@@ -302,6 +311,27 @@ def run(ctx, R, tier):
     R.check(ok, "C19-R3", "PYROMETA|tag-separator", "the printer joins the tags with exactly the separator the parser splits on", st_.loc(joins[0]) if joins else st_.loc(),
             "tags are joined with %r but split on %r: the printed form of a PYROMETA uri with several tags is not accepted back (the object part may not contain blanks)" % (
                 joins[0].func.value.value if joins else None, splits[0].args[0].value if splits else None))
+
+    # ... and the join is what prints the object part exactly when the uri is a PYROMETA uri (whose object IS the tag set); every other protocol prints self.object itself
+    scfg = ctx.cfg(st_)
+
+    def is_meta(want):
+        def pred(atom, pol):
+            if isinstance(atom, ast.Compare) and len(atom.ops) == 1 and isinstance(atom.ops[0], (ast.Eq, ast.NotEq)):
+                sides = [atom.left, atom.comparators[0]]
+                if any(unparse(x) == "self.protocol" for x in sides) and any(isinstance(x, ast.Constant) and x.value == "PYROMETA" for x in sides):
+                    return ((pol is True) == isinstance(atom.ops[0], ast.Eq)) is want
+            return False
+        return pred
+    objs = [n for n in walk_no_nested(st_.node) if isinstance(n, ast.Attribute) and n.attr == "object" and unparse(n.value) == st_.self_name and isinstance(n.ctx, ast.Load)]
+    in_join = [n for n in objs if any(n in list(ast.walk(j)) for j in joins)]
+    plain = [n for n in objs if n not in in_join]
+    okj = bool(in_join) and bool(plain) and \
+        all(scfg.guarded(x, lambda e: edge_has_fact(e, is_meta(True))) for n in in_join for x in ctx.node_of(st_, n)) and \
+        all(scfg.guarded(x, lambda e: edge_has_fact(e, is_meta(False))) for n in plain for x in ctx.node_of(st_, n))
+    R.check(okj, "C19-R3", "printer|tag-set-joined-exactly-for-PYROMETA", "__str__ prints the joined tag set on the PYROMETA branch and self.object itself on every other", st_.loc(),
+            "the choice between `','.join(self.object)` and `self.object` no longer follows `self.protocol == 'PYROMETA'`: str() of a PYROMETA uri raises TypeError (str + set) or "
+            "prints the set's repr, or another uri's object name is joined character by character")
 
     # ---------------------------------------------------------------- R5
     reg = ctx.fn("Pyro5.nameserver.NameServer.register")
